@@ -131,11 +131,24 @@ fn rand_state(rng: &mut Rng) -> State {
 fn rounds<'a>(rep: &mut Report, sub: &'static str, case: u64, kind: Kind, terms: &[&'a T<'a>], ext: &'a [T<'a>], update: &mut dyn FnMut() -> NothingOrError<E>, rng: &mut Rng) {
     let n = terms.len();
     let name = kind_name(kind);
-    let conn: Vec<bool> = (0..n).map(|_| rng.chance(0.6)).collect();
+    let mut conn: Vec<bool> = (0..n).map(|_| rng.chance(0.6)).collect();
+    // occasionally two terminals of the SAME device are connected to each other (a locked differential, an axle end
+    // looped back): each then reads the mean of the two own slots
+    let mut partner_own: Vec<Option<usize>> = vec![None; n];
+    if n >= 2 && rng.chance(0.08) {
+        let i = rng.usize(n);
+        let j = (i + 1 + rng.usize(n - 1)) % n;
+        conn[i] = false;
+        conn[j] = false;
+        partner_own[i] = Some(j);
+        partner_own[j] = Some(i);
+        rep.tally(&format!("own_terminals_connected_to_each_other/{}", name));
+    }
     for i in 0..n { if conn[i] { connect(&ext[i], terms[i]); } }
+    if let Some((i, Some(j))) = partner_own.iter().enumerate().find(|x| x.1.is_some()).map(|x| (x.0, *x.1)) { connect(terms[i], terms[j]); }
     // delivery by following: some own terminals receive their measurement from a getter they follow (it is pulled in by
     // the device's update, which updates its terminals first) instead of by set()
-    let fsrc: Vec<Option<Src<Datum<State>>>> = (0..n).map(|_| if rng.chance(0.2) { Some(Src::<Datum<State>>::new()) } else { None }).collect();
+    let fsrc: Vec<Option<Src<Datum<State>>>> = (0..n).map(|i| if partner_own[i].is_none() && rng.chance(0.2) { Some(Src::<Datum<State>>::new()) } else { None }).collect();
     for i in 0..n { if let Some(src) = &fsrc[i] { Settable::<Datum<State>, E>::follow(&mut *terms[i].borrow_mut(), src.dynref()); } }
     let mut clock = rng.range_i64(-(1 << 40), 1 << 40);
     let consistent_round = rng.chance(0.15);
@@ -204,7 +217,8 @@ fn rounds<'a>(rep: &mut Report, sub: &'static str, case: u64, kind: Kind, terms:
         // cannot hide behind "the projection of whatever was read"
         for i in 0..n {
             if pending[i].is_some() { continue; }
-            let (o, e) = (own_state(terms[i]), if conn[i] { own_state(&ext[i]) } else { None });
+            if let Some(j) = partner_own[i] { if pending[j].is_some() { continue; } }
+            let (o, e) = (own_state(terms[i]), if conn[i] { own_state(&ext[i]) } else if let Some(j) = partner_own[i] { own_state(terms[j]) } else { None });
             let want: Option<(i64, [f64; 3])> = match (o, e) {
                 (None, None) => None,
                 (Some(x), None) | (None, Some(x)) => Some((x.time.0, [x.value.position as f64, x.value.velocity as f64, x.value.acceleration as f64])),
@@ -309,7 +323,7 @@ fn consistent_value(kind: Kind, i: usize, b: State) -> State {
 macro_rules! axle_case {
     ($n:literal, $rep:expr, $case:expr, $rng:expr) => {{
         let ext: Vec<T> = (0..$n).map(|_| Terminal::new()).collect();
-        let mut dev = Axle::<$n, E>::new();
+        let mut dev = { let mut d = Axle::<$n, E>::new(); if $case % 2 == 1 { let _ = d.update(); } Box::new(d) };
         let terms: Vec<&T> = (0..$n).map(|i| dev.get_terminal(i)).collect();
         rounds($rep, "axle", $case, Kind::Axle($n), &terms, &ext, &mut || dev.update(), $rng);
     }};
@@ -321,6 +335,8 @@ fn main() {
         let mut rng = Rng::new(args.seed, 801, case);
         let ext: Vec<T> = (0..2).map(|_| Terminal::new()).collect();
         let mut dev = Invert::<E>::new();
+        // in half of the cases the device is updated once and then MOVED (boxed) before its terminals are handed out
+        let mut dev = { let mut d = dev; if case % 2 == 1 { let _ = d.update(); } Box::new(d) };
         let terms = vec![dev.get_terminal_1(), dev.get_terminal_2()];
         rounds(&mut rep, "invert", case, Kind::Invert, &terms, &ext, &mut || dev.update(), &mut rng);
     }
@@ -332,6 +348,7 @@ fn main() {
             Ok(d) => d,
             Err(m) => { rep.violation("C08/constructor-panic/GearTrain", "gear", case, format!("ratio {} ({}): {}", ratio, if case % 2 == 0 { "with_ratio_raw" } else { "with_ratio" }, m)); continue; }
         };
+        let mut dev = { let mut d = dev; if case % 4 >= 2 { let _ = d.update(); } Box::new(d) };
         let terms = vec![dev.get_terminal_1(), dev.get_terminal_2()];
         rounds(&mut rep, "gear", case, Kind::Gear(ratio), &terms, &ext, &mut || dev.update(), &mut rng);
     }
@@ -344,6 +361,7 @@ fn main() {
         let mode = (case % 5) as u8;
         let ext: Vec<T> = (0..3).map(|_| Terminal::new()).collect();
         let mut dev = match mode { 0 => Differential::<E>::with_distrust(DifferentialDistrust::Side1), 1 => Differential::with_distrust(DifferentialDistrust::Side2), 2 => Differential::with_distrust(DifferentialDistrust::Sum), 3 => Differential::with_distrust(DifferentialDistrust::Equal), _ => Differential::new() };
+        let mut dev = { let mut d = dev; if case % 2 == 1 { let _ = d.update(); } Box::new(d) };
         let terms = vec![dev.get_side_1(), dev.get_side_2(), dev.get_sum()];
         rounds(&mut rep, "differential", case, Kind::Diff(mode.min(3)), &terms, &ext, &mut || dev.update(), &mut rng);
     }
